@@ -496,3 +496,38 @@ prop(
     essential=dict(quick=["concurrent-starts", "four-or-more-concurrent-starts", "reader-writer-overlap", "strerror-threads", "run-threads"]),
     assumptions=["one operation of a kind per child at a time (README, Multithreading)", "REPROC_MULTITHREADED build (pthread_sigmask), as in the pinned baseline"],
 )
+
+# ---- Windows half on engine W2 (added to the properties whose anchors include *.windows.c) ----
+W2_TEXT = (" Windows half (engine W2): the library's _WIN32 build - reproc.c, redirect.c, options.c and every *.windows.c, compiled unmodified - runs on an in-memory Win32 "
+           "simulator (src/winsim: handles with ownership and inherit flags, stream sockets with finite byte queues and shutdown states, one process whose program is played by the "
+           "harness, a virtual tick counter, failure of any allocation / Win32 / Winsock call on demand). Sweep: 7 x 7 x 8 redirect types x (no fault, 24 allocation indices, "
+           "19 calls x 8 ordinals x 2 errors); random: shorthands, absent / broken / shared parent std handles, start-up input, child output up to 200 000 bytes per stream across "
+           "the child's exit, endings by exit / terminate / kill / destroy. %s")
+W2_NOTE = " The simulator implements documented Win32 / Winsock behaviour only; it is not Windows (e.g. it does not reproduce the socket flush problem the Windows-only keep-alive code works around)."
+W2_WHAT = {
+    "C01": "Oracle: wait returns the exit code given to the simulated process (137 after TerminateProcess, 143 for the console-break code), the same value again afterwards.",
+    "C02": "Oracle: pattern bytes written by the simulated child are read exactly once and in order, the closed-stream error only after all of them and only once the child is gone, sticky; start-up input and writes reach the child followed by end-of-file.",
+    "C04": "Oracle: a start that fails returns the injected error (-8 for an allocation), leaves no process, and a second start on the same handle succeeds; success means CreateProcessW succeeded.",
+    "C05": "Oracle: the simulator's handle and allocation ledger after destroy - every handle the library created is closed exactly once, none of the caller's (std handles, user handles, the handle behind a FILE) is ever closed, no use after close, no block left.",
+    "C06": "Oracle: terminate sends exactly one CTRL_BREAK_EVENT to the child's own process group (and the child was created with its own group), kill calls TerminateProcess once on the child's handle with 137, nothing is sent once a status was returned; destroy does not return while the child runs.",
+    "C10": "Oracle: hStdInput / hStdOutput / hStdError given to CreateProcessW against the redirect settings - the right end of a library pipe, the parent's own std handle (NUL if it has none), NUL or the path opened with the access of the stream's direction, the user's handle, the handle behind the FILE, stdout's handle for stderr.",
+    "C11": "Oracle: the PROC_THREAD_ATTRIBUTE_HANDLE_LIST holds exactly the three stream handles and the exit handle, each once and inheritable at creation; bInheritHandles with an explicit list; the parent's pipe ends and everything else the library created are not inheritable.",
+}
+for _pid, _what in W2_WHAT.items():
+    PROPS[_pid]["level_text"] = PROPS[_pid]["level_text"] + W2_TEXT % _what
+    PROPS[_pid]["level_note"] = PROPS[_pid].get("level_note", "") + W2_NOTE
+    PROPS[_pid]["technique"] = PROPS[_pid]["technique"] + "; Windows sources: exhaustive single-fault sweep + rapidcheck-sampled cases on an in-memory Win32 simulator"
+    PROPS[_pid].setdefault("assumptions", []).append("engine W2 models one child per case and documented Win32 semantics (duplicate handles in a handle list and non-inheritable listed handles make CreateProcessW fail)")
+W2_ESSENTIAL = {
+    "C01": ["child-exits", "terminated", "killed"],
+    "C02": ["output-exceeds-socket-buffer", "child-gone-before-first-read", "startup-input"],
+    "C04": ["alloc-fault", "api-fault", "fault-fired", "restarted-after-failure"],
+    "C05": ["alloc-fault", "api-fault", "fault-fired", "destroy-while-running"],
+    "C06": ["terminated", "killed", "destroy-while-running"],
+    "C10": ["output-piped", "start-succeeded"],
+    "C11": ["start-succeeded", "restarted-after-failure"],
+}
+for _pid, _cls in W2_ESSENTIAL.items():
+    for _tier in ("quick", "thorough"):
+        if _tier in PROPS[_pid].get("essential", {}):
+            PROPS[_pid]["essential"][_tier] = PROPS[_pid]["essential"][_tier] + [c for c in _cls if c not in PROPS[_pid]["essential"][_tier]]
